@@ -11,6 +11,8 @@ type RecOS struct {
 	mu     sync.Mutex
 	Calls  []OSCall
 	Before func(call OSCall) // invoked before the call is issued
+	// Fail, if set, is asked before a rename: a non-nil error is returned to litefs instead of renaming
+	Fail func(call OSCall) error
 }
 
 type OSCall struct {
@@ -69,6 +71,14 @@ func (o *RecOS) RemoveAll(op, name string) error {
 }
 func (o *RecOS) Rename(op, oldpath, newpath string) error {
 	o.rec(op, "rename", oldpath, newpath)
+	o.mu.Lock()
+	f := o.Fail
+	o.mu.Unlock()
+	if f != nil {
+		if err := f(OSCall{op, "rename", oldpath, newpath}); err != nil {
+			return err
+		}
+	}
 	return os.Rename(oldpath, newpath)
 }
 func (o *RecOS) Stat(op, name string) (os.FileInfo, error) {
